@@ -21,11 +21,11 @@ import common  # noqa: E402
 S0 = {'foo': 'padding:10', 'tab': 'margin:1'}
 S1 = {'foo': 'padding:10', 'tab': 'border:1'}
 MS1 = {'bad': 'x)', 'good': 'section.sn', 'sig': 'p.sig{-- ${who}}'}
-OBJS = ['m1', 'm2', 'm3', 'm4', 'm5', 'm6', 's1', 's2', 's3', 's4', 's5', 's6']
+OBJS = ['m1', 'm2', 'm3', 'm4', 'm5', 'm6', 's1', 's2', 's3', 's4', 's5', 's6', 's7', 's8']
 
 ABBR = {
     'markup': {'ok': 'ul>li.item$*2>a', 'wrap': 'ul>li*', 'badparse': 'ul>li)', 'badsnippet': 'ul>bad*', 'bem': 'div.b>.-e_m+p.b__x', 'var': '!>sig'},
-    'css': {'num': 'foo', 'tab': 'tab', 'plain': 'p10+m0-a', 'badparse': 'p{'},
+    'css': {'num': 'foo', 'tab': 'tab', 'plain': 'p10+m0-a', 'raw': '@k', 'badparse': 'p{'},
 }
 
 
@@ -44,6 +44,8 @@ def make_objects(emmet):
         's4': {'type': 'stylesheet', 'snippets': dict(S0), 'options': {'stylesheet.intUnit': 'px'}},
         's5': emmet.Config({'type': 'stylesheet', 'snippets': dict(S0), 'options': {'stylesheet.intUnit': 'pt'}, 'cache': k2}),
         's6': {'type': 'stylesheet', 'syntax': 'scss', 'options': {'stylesheet.intUnit': 'px'}, 'cache': k1},
+        's7': {'type': 'stylesheet', 'snippets': dict(S0), 'options': {'stylesheet.intUnit': 'pt'}, 'cache': k1, 'context': {'name': '@@section'}},
+        's8': {'type': 'stylesheet', 'snippets': dict(S0), 'options': {'stylesheet.intUnit': 'pt'}, 'cache': k1, 'context': {'name': '@@property'}},
     }
     return o, [k1, k2]
 
@@ -159,7 +161,7 @@ def _run_histories(items):
 
 def run(out):
     quick = out.tier == 'quick'
-    out.rule = ('one case per call history generated by Session.tla (all histories up to the bound over 60 call kinds = 12 caller '
+    out.rule = ('one case per call history generated by Session.tla (all histories up to the bound over 76 call kinds = 14 caller '
                 'objects x abbreviations, plus simulated longer ones); non-trivial = at least two calls that touch the same caller '
                 'object or the same cache; distinct by history')
     out.assumptions = ['CPython gc census: an object of a class defined in emmet.* that is alive after the call, was not alive before '
@@ -168,10 +170,10 @@ def run(out):
                        'fresh-interpreter results: one new Python process per call kind']
     import emmet  # noqa
     # ---- spec self-test: every named deviation must be caught by TLC (non-vacuity of the invariants)
-    devs = ['noRestore', 'addsKey', 'bakeUnits', 'staleTable', 'leakBem']
+    devs = ['noRestore', 'addsKey', 'bakeUnits', 'staleTable', 'leakBem', 'scopeInCache']
     expect = {'noRestore': 'CallerConfigStable', 'addsKey': 'CallerConfigStable', 'bakeUnits': 'ResultPure',
-              'staleTable': 'ResultPure', 'leakBem': 'NoRetention'}
-    for d in (devs if not quick else devs[out.seed % 5:][:1] + ['bakeUnits']):
+              'staleTable': 'ResultPure', 'leakBem': 'NoRetention', 'scopeInCache': 'ResultPure'}
+    for d in (devs if not quick else devs[out.seed % 6:][:1] + ['bakeUnits']):
         r = common.run_tlc('Session', cfg='Session_selftest', constants={'MaxCalls': 3, 'Deviations': {d}}, workers=4)
         if r.violated != expect[d]:
             raise common.MachineryError('spec self-test: deviation %s should violate %s, TLC says %r' % (d, expect[d], r.violated))
@@ -231,7 +233,7 @@ def run(out):
     def shares(h):
         seen = set()
         for c, ab in h:
-            key = c if c[0] == 'm' else ('k1' if c in ('s1', 's2', 's3', 's6') else c)
+            key = c if c[0] == 'm' else ('k1' if c in ('s1', 's2', 's3', 's6', 's7', 's8') else c)
             if key in seen:
                 return True
             seen.add(key)
